@@ -1,19 +1,23 @@
 import FP.Model.Wrapper
+import FP.Proofs.WrapperBase
+import FP.Proofs.WrapperIntProd
+import FP.Proofs.WrapperPiecewise
+import FP.Proofs.WrapperState
 namespace FP
 
 theorem binProd_exact (a : Asg) (b c p : Var) (lb ub : Rat)
     (hb : a b = 0 ∨ a b = 1) (hc : lb ≤ a c ∧ a c ≤ ub) :
-    (∀ r ∈ binProd b c p lb ub, r.holds a) ↔ a p = a b * a c := by
-  sorry
+    (∀ r ∈ binProd b c p lb ub, r.holds a) ↔ a p = a b * a c :=
+  binProd_exact_aux a b c p lb ub hb hc
 
 theorem numBits_spec (ub : Nat) :
-    ub + 1 ≤ 2 ^ numBits ub ∧ ∀ n, ub + 1 ≤ 2 ^ n → numBits ub ≤ n := by
-  sorry
+    ub + 1 ≤ 2 ^ numBits ub ∧ ∀ n, ub + 1 ≤ 2 ^ n → numBits ub ≤ n :=
+  numBits_spec_proof ub
 
 theorem intProd_sound (a : Asg) (n c p : Var) (lb : Rat) (ubN : Nat) (name : String)
     (hc : lb ≤ a c ∧ a c ≤ (ubN : Rat)) (h : Sat a (intProd n c p lb ubN name)) :
-    a p = a n * a c := by
-  sorry
+    a p = a n * a c :=
+  intProd_sound_proof a n c p lb ubN name hc h
 
 theorem intProd_complete (a : Asg) (n c p : Var) (lb : Rat) (ubN : Nat) (name : String) (k : Nat)
     (hk : a n = k) (hkub : k ≤ ubN) (hlb : lb ≤ 0)
@@ -22,16 +26,16 @@ theorem intProd_complete (a : Asg) (n c p : Var) (lb : Rat) (ubN : Nat) (name : 
                    compVar name i ≠ n ∧ compVar name i ≠ c ∧ compVar name i ≠ p)
     (hbc : ∀ i j, bitVar name i ≠ compVar name j) :
     ∃ a' : Asg, (∀ v, (∀ i, v ≠ bitVar name i ∧ v ≠ compVar name i) → a' v = a v) ∧
-      Sat a' (intProd n c p lb ubN name) := by
-  sorry
+      Sat a' (intProd n c p lb ubN name) :=
+  intProd_complete_proof a n c p lb ubN name k hk hkub hlb hc hp hfresh hbc
 
 theorem piecewise_sound (a : Asg) (x y : Var) (ranges : List (Rat × Rat)) (constants : List Rat)
     (name : String) (hlen : ranges.length = constants.length)
     (hLU : ∀ r ∈ ranges, r.1 ≤ r.2)
     (h : Sat a (piecewise x y ranges constants name)) :
     ∃ i, ∃ hi : i < ranges.length, (ranges[i]).1 ≤ a x ∧ a x ≤ (ranges[i]).2 ∧
-      a y = constants[i]'(hlen ▸ hi) := by
-  sorry
+      a y = constants[i]'(hlen ▸ hi) :=
+  piecewise_sound_proof a x y ranges constants name hlen hLU h
 
 theorem piecewise_complete_partial (a : Asg) (x y : Var) (ranges : List (Rat × Rat))
     (constants : List Rat) (name : String) (hlen : ranges.length = constants.length)
@@ -41,28 +45,28 @@ theorem piecewise_complete_partial (a : Asg) (x y : Var) (ranges : List (Rat × 
         constants[i] - bigM ranges ≤ a y ∧ a y ≤ constants[i] + bigM ranges)
     (hfresh : ∀ i, zVar name i ≠ x ∧ zVar name i ≠ y) :
     ∃ a' : Asg, (∀ v, (∀ i, v ≠ zVar name i) → a' v = a v) ∧
-      Sat a' (piecewise x y ranges constants name) := by
-  sorry
+      Sat a' (piecewise x y ranges constants name) :=
+  piecewise_complete_partial_proof a x y ranges constants name hlen hLU j hj hx hy hM hfresh
 
 theorem piecewise_bigM_witness :
     ¬ ∃ a : Asg, a (.nm "x" "") = 1/2 ∧
-      Sat a (piecewise (.nm "x" "") (.nm "y" "") [(0,1),(2,3)] [0,100] "f") := by
-  sorry
+      Sat a (piecewise (.nm "x" "") (.nm "y" "") [(0,1),(2,3)] [0,100] "f") :=
+  piecewise_bigM_witness_proof
 
 theorem flush_fix_exact (f : GetColsField) (s : WState) (hnolb : s.pendingLb = [])
     (hnd : (s.pendingFix.map (·.1)).Nodup) (i : Nat) (hi : i < s.cols.length) :
     ((flush f s).cols.length = s.cols.length) ∧
     (∀ v, (i, v) ∈ s.pendingFix →
         (flush f s).cols[i]? = some { lb := v, ub := v, cost := (s.cols.getD i default).cost }) ∧
-    (i ∉ s.pendingFix.map (·.1) → (flush f s).cols[i]? = s.cols[i]?) := by
-  sorry
+    (i ∉ s.pendingFix.map (·.1) → (flush f s).cols[i]? = s.cols[i]?) :=
+  flush_fix_exact_proof f s hnolb hnd i hi
 
 theorem flush_lb_exact (s : WState) (hnofix : s.pendingFix = [])
     (hnd : (s.pendingLb.map (·.1)).Nodup) (i : Nat) (hi : i < s.cols.length) :
     (∀ v, (i, v) ∈ s.pendingLb →
         (flush .upper s).cols[i]? = some { (s.cols.getD i default) with lb := v }) ∧
-    (i ∉ s.pendingLb.map (·.1) → (flush .upper s).cols[i]? = s.cols[i]?) := by
-  sorry
+    (i ∉ s.pendingLb.map (·.1) → (flush .upper s).cols[i]? = s.cols[i]?) :=
+  flush_lb_exact_proof s hnofix hnd i hi
 
 theorem flush_clears (f : GetColsField) (s : WState) :
     (flush f s).pendingFix = [] ∧ (flush f s).pendingLb = [] := ⟨rfl, rfl⟩
@@ -75,11 +79,11 @@ theorem flush_lb_wrong_field_witness :
 
 /-- a replaced objective fully replaces the previous one -/
 theorem setObjective_replaces (cols : List WCol) (t1 t2 : List (Nat × Rat)) :
-    setObjective (setObjective cols t1) t2 = setObjective cols t2 := by
-  sorry
+    setObjective (setObjective cols t1) t2 = setObjective cols t2 :=
+  setObjective_replaces_proof cols t1 t2
 
 theorem setObjective_cost (cols : List WCol) (t : List (Nat × Rat)) (i : Nat) (hi : i < cols.length) :
-    ((setObjective cols t)[i]?).map (·.cost) = some ((t.filter (·.1 = i)).map (·.2)).sum := by
-  sorry
+    ((setObjective cols t)[i]?).map (·.cost) = some ((t.filter (·.1 = i)).map (·.2)).sum :=
+  setObjective_cost_proof cols t i hi
 
 end FP
